@@ -106,10 +106,11 @@ ATOMS = ['slot', 'configured', 'prereq', 'unsent', 'pwevent', 'notdrone', 'pw', 
 
 def builder_guards(P, R, xq, b):
     srvv = None
-    for s in b.stores():
-        rhs = s.ev.get('rhs') or {}
-        if is_var(s.ev.get('lhs')) and rhs.get('k') == 'idx' and on_path(rhs, 'vec'):
-            srvv = s.ev['lhs']['name']
+    for s in b.sites():
+        rhs = s.ev.get('rhs') if s.ev['k'] == 'store' else s.ev.get('init') if s.ev['k'] == 'decl' else None
+        tgt = s.ev['lhs']['name'] if s.ev['k'] == 'store' and is_var(s.ev.get('lhs')) else s.ev.get('var') if s.ev['k'] == 'decl' else None
+        if tgt and isinstance(rhs, dict) and rhs.get('k') == 'idx' and on_path(rhs, 'vec'):
+            srvv = tgt
     if srvv is None:
         raise AnalysisBroken('builder does not walk the service table')
     flagp = b.params[1] if len(b.params) > 1 else None
@@ -200,9 +201,15 @@ def builder_guards(P, R, xq, b):
         if is_var(s.ev.get('lhs'), srvv):
             loop_head = s.bid
     inc_blocks = set()
-    for bid, blk in b.blocks.items():
+    idxvars = set()
+    for s2 in b.sites():
+        val = s2.ev.get('rhs') if s2.ev['k'] == 'store' else s2.ev.get('init') if s2.ev['k'] == 'decl' else None
+        tgt = s2.ev['lhs']['name'] if s2.ev['k'] == 'store' and is_var(s2.ev.get('lhs')) else s2.ev.get('var') if s2.ev['k'] == 'decl' else None
+        if tgt == srvv and isinstance(val, dict) and val.get('k') == 'idx':
+            idxvars |= vars_in(val['index'])
+    for bid in b.blocks:
         for t in b.block_sites(bid):
-            if t.ev['k'] == 'store' and t.ev.get('op') == '++' and is_var(t.ev.get('lhs')) and t.ev['lhs']['name'] in vars_in({'k': 'x', 'e': None}) | {v for s2 in b.stores() if is_var(s2.ev.get('lhs'), srvv) for v in vars_in((s2.ev.get('rhs') or {}).get('index'))}:
+            if t.ev['k'] == 'store' and t.ev.get('op') == '++' and is_var(t.ev.get('lhs')) and t.ev['lhs']['name'] in idxvars:
                 inc_blocks.add(bid)
     allowed = {('slot', False): 'empty slot', ('configured', False): 'service not configured', ('prereq', False): 'prerequisites missing',
                ('pw', False): 'login protocol without a password', ('pwevent', False): 'already asked and this is not a password event',
